@@ -237,6 +237,17 @@ def pair_aligned(doc, pos):
     return not (0xDC00 <= u < 0xE000)
 
 
+def step_aligned(doc, step):
+    """every position the step names lies inside `doc` and not inside a surrogate pair of one of its text nodes (a step
+    made for one document and used on another one may cut anywhere; a cut inside a pair is outside every property's guard)"""
+    size = doc.content.size
+    for name in ("from_", "to", "gap_from", "gap_to", "pos"):
+        p = getattr(step, name, None)
+        if isinstance(p, int) and (p < 0 or p > size or not pair_aligned(doc, p)):
+            return False
+    return True
+
+
 def aligned_positions(doc):
     return [p for p in positions(doc) if pair_aligned(doc, p)]
 
